@@ -12,7 +12,7 @@ TRUSTED = [
     "hand-written model of internal/core/adt/decimal.go (numOp, intDivOp), binop.go (cmpTonode, number/string/bytes comparison dispatch), internal/internal.go (BaseContext precision 34, reduceKeepingFloats), cue/literal/num.go (ParseNum, decimal, multipliers), math/big Div/Mod/Quo/Rem",
     "extraction (ExtrOcamlBasic only; N/Z/positive kept as Coq datatypes; no Extract Constant), OCaml driver ocaml/c06_driver.ml (hex <-> positive, case parsing)",
     "Go harness harness/c06 (generators; rendering of operands as CUE literals; projection of cue.Value to kind/sign/coefficient/exponent through adt.Num cross-checked with Value.MantExp)",
-    "apd exponent limits (|adjusted exponent| > 100000) are modelled for literals only; arithmetic operands stay inside |exp| <= 2000 (quick: 300), <= 600 digits (quick: 300)",
+    "apd exponent limits (|adjusted exponent| > 100000) are modelled for literals only (out of range = error since the fix of F9); arithmetic operands stay inside |exp| <= 2000 (quick: 300), <= 600 digits (quick: 300)",
 ]
 
 F1 = ("F1 int/decimal + - * rounded to 34 significant digits (internal.BaseContext precision in adt/decimal.go numOp): "
@@ -21,8 +21,6 @@ F5 = ("F5 multiplier literal product rounded to 34 digits before RoundToIntegral
       "impl == Impl model != specified value on %d generated literals, e.g. `%s` -> %s; witness theorem C06_mult_literal_exact_refuted")
 F8 = ("F8 fractional multiplier literal rejected where doc/ref/spec.md says the result is truncated (e.g. 1.3Ki = 1331): "
       "impl == Impl model == error on %d generated literals, e.g. `%s`; witness theorem C06_mult_literal_truncation_refuted")
-F9 = ("F9 float literal exponent outside apd's range (+-100000) silently dropped, beyond int32 gives NaN (error of UnmarshalText ignored in cue/literal/num.go decimal): "
-      "impl == Impl model != specified value on %d generated literals, e.g. `%s` -> %s; witness theorem C06_literal_exponent_range_refuted")
 
 
 def run_model(exe, cases, jobs):
@@ -191,7 +189,6 @@ def run(ctx):
     f1 = []
     f5 = []
     f8 = []
-    f9 = []
     samples = []
     for c, i, m in zip(cases, impl, model):
         f = c.split()
@@ -228,7 +225,7 @@ def run(ctx):
             if mismatches <= 5:
                 what = {
                     "E": "value of the CUE expression (kind, sign, coefficient, exponent, or error) differs from the Coq model of apd precision-34 arithmetic / numOp / intDivOp / Cmp (theorems C06_add_correctly_rounded, C06_quo_correctly_rounded, C06_div_mod_euclid, C06_cmp_spec ...)",
-                    "L": "literal.ParseNum + NumInfo.Decimal differ from the byte-level Coq model NumLit.lit_parse (theorems C06_literal_float_value, C06_literal_si_value ...)",
+                    "L": "literal.ParseNum + NumInfo.Decimal differ from the byte-level Coq model NumLit.lit_parse (theorems C06_literal_float_value, C06_literal_float_out_of_range_rejected, C06_literal_si_value ...); a literal whose exponent apd cannot represent must be an error, never a number or NaN (C06-F9, fixed)",
                     "LV": "a grammar-valid literal: literal.ParseNum / compiled value differ from the Coq model NumLit.lit_parse (or from each other: E2E-DIFF)",
                     "S": "string/bytes comparison differs from bytewise lexicographic order (C06_bytes_cmp_total_order)",
                 }.get(k, "?")
@@ -246,8 +243,6 @@ def run(ctx):
                 f5.append((c, mres))
             elif mcls == "REJECTED":
                 f8.append((c, mres))
-            elif mcls == "EXPRANGE":
-                f9.append((c, mres))
     def int_only(c):
         f = c.split()
         return len(f) == 4 and f[1] in "+-*" and all(t[0] == "i" or t == "neg" for t in f[2:])
@@ -261,9 +256,6 @@ def run(ctx):
     if f8:
         c, r = min(f8, key=lambda x: len(x[0]))
         ctx.known_finding(F8 % (len(f8), render(c)))
-    if f9:
-        c, r = min(f9, key=lambda x: len(x[0]))
-        ctx.known_finding(F9 % (len(f9), render(c), r))
     if not samples and cases:
         samples.append({"case": cases[0][:300], "impl": impl[0], "model": model[0]})
     ctx.coverage.update({
@@ -283,7 +275,7 @@ def run(ctx):
         "operator_mix": ops,
         "max_operand_digits_hist": digit_hist,
         "known_deviation_instances": {"F1_arith_rounded": len(f1), "F1_int_op_int": len(f1_int), "F5_mult_literal_rounded": len(f5),
-                                      "F8_fractional_mult_rejected": len(f8), "F9_exponent_range": len(f9)},
+                                      "F8_fractional_mult_rejected": len(f8)},
         "vm_compute_crosschecked": nvm,
         "mismatches": mismatches,
         "harness_build_s": hsecs,
@@ -328,7 +320,7 @@ def render(case):
 
 MANIFEST = {
     "category": "proof",
-    "text": "Coq theorems about an implementation-faithful model of CUE's number arithmetic (apd at precision 34 as used by adt.numOp, intDivOp, Decimal.Cmp, literal.ParseNum), for all operands of any size: + - * equal the exact result rounded half-up to 34 significant digits (error <= half a unit of the 34th digit) and are exact whenever the exact result fits 34 digits; the unconditional exactness demanded by the property is REFUTED for the faithful model (10^36 + 1, known finding F1) and the multiplier-literal analogue (F5); / is correctly rounded to 34 digits, always float, zero divisor is an error; div/mod satisfy the Euclidean identity with 0 <= mod < |b|, quo/rem the truncated identity with the sign of the dividend, at any size, zero divisor is an error; comparison equals comparison of the denoted rationals, hence a total order by value across int/float; strings/bytes compare as a total lexicographic byte order; every literal produced by the grammar of the spec is accepted with the denoted value (conditions stated). The model is tied to /repo by exact agreement (kind, sign, coefficient, exponent, error class) with the extracted model on generated expressions and literal byte strings evaluated through cue.Context and literal.ParseNum.",
+    "text": "Coq theorems about an implementation-faithful model of CUE's number arithmetic (apd at precision 34 as used by adt.numOp, intDivOp, Decimal.Cmp, literal.ParseNum), for all operands of any size: + - * equal the exact result rounded half-up to 34 significant digits (error <= half a unit of the 34th digit) and are exact whenever the exact result fits 34 digits; the unconditional exactness demanded by the property is REFUTED for the faithful model (10^36 + 1, known finding F1) and the multiplier-literal analogue (F5); / is correctly rounded to 34 digits, always float, zero divisor is an error; div/mod satisfy the Euclidean identity with 0 <= mod < |b|, quo/rem the truncated identity with the sign of the dividend, at any size, zero divisor is an error; comparison equals comparison of the denoted rationals, hence a total order by value across int/float; strings/bytes compare as a total lexicographic byte order; every literal produced by the grammar of the spec is accepted with the denoted value, or rejected when apd cannot represent its exponent - never read as another number (conditions stated). The model is tied to /repo by exact agreement (kind, sign, coefficient, exponent, error class) with the extracted model on generated expressions and literal byte strings evaluated through cue.Context and literal.ParseNum.",
     "note": "Trusted: Coq kernel; the hand-written model of apd v3 (third-party; validated by correspondence only), of numOp/intDivOp/cmpTonode/ParseNum and of math/big Div/Mod/Quo/Rem; extraction and the OCaml/Go drivers. Not modelled: apd exponent limits inside arithmetic (operands kept within +-2000), NaN/Infinity forms beyond what ParseNum produces, math.* builtins (pkg/math), number formatting (Decimal.Append 'G').",
     "technique": "Coq proof (integer-scaled semantics of decimals in Q; rounding and division error bounds; refutation witnesses by vm_compute) + extracted-model differential check with Spec/Impl classification of known deviations",
 }
